@@ -35,6 +35,14 @@ var regressHistories = []HistCase{
 	{Kind: "*[]struct", Path: []string{"read w[0]", "w.shift()"}},
 	{Kind: "*struct{slice,array,map}", Path: []string{`h0=w["M"]`, `w["M"]={k:4}`}},
 	{Kind: "*struct{ptr,iface}", Path: []string{`w["P"]=null`, `w["P"]=7`}},
+	// guards (no finding on the unchanged tree): element wrappers handed out, shrink below them, regrow,
+	// touch the higher index first - the lower index must be a fresh live element, not the detached wrapper
+	{Kind: "*[]struct", Path: []string{"h0=w[0]", "h1=w[1]", "w.length=0", "w.length=5", "read w[1]"}},
+	{Kind: "*[]struct", Path: []string{"w.sort(C)", "w.length=0", "w.length=5", "read w[1]", `h0=w[0]`, `h0["A"]=7`}},
+	{Kind: "*[]struct/regrow", Path: []string{"w.length=1", "w.length=4", "readall-desc w"}},
+	{Kind: "*[]struct/regrow", Path: []string{"w.length=1", "w.push({X:6})", "w.push({X:6})", "go:s[1].X=8", "read w[3]", "read w[1]"}},
+	{Kind: "*[][2]int/regrow", Path: []string{"w.length=0", "w.length=4", "readall-desc w"}},
+	{Kind: "*[][]int/regrow", Path: []string{"w.length=2", "w.length=4", "readall-desc w"}},
 }
 
 // --- plain scripts -----------------------------------------------------------------------------------
